@@ -28,7 +28,9 @@ def _wrap_signed_binop(operation):
         assert len(ops) == 2
         first = _unsigned_to_signed(ops[1].value)
         second = _unsigned_to_signed(ops[0].value)
-        return _signed_to_unsigned(operation(first, second))
+        # int(): comparison operators return a bool, which would end up as
+        # IRLiteral(True/False) (printed as `True`, which does not parse back)
+        return _signed_to_unsigned(int(operation(first, second)))
 
     return wrapper
 
